@@ -1628,9 +1628,13 @@ impl DnsOutPacket {
     }
 
     fn write_utf8(&mut self, s: &str) {
-        assert!(s.len() < 64);
-        self.write_byte(s.len() as u8);
-        self.write_bytes(s.as_bytes());
+        // A label cannot be longer than 63 bytes (RFC 1035 section 2.3.4). Such a
+        // label may come from the API or from names learned from the network:
+        // cut it rather than ending the daemon thread.
+        const MAX_LABEL_LEN: usize = 63;
+        let bytes = &s.as_bytes()[..s.len().min(MAX_LABEL_LEN)];
+        self.write_byte(bytes.len() as u8);
+        self.write_bytes(bytes);
     }
 
     fn write_u32(&mut self, v: u32) {
